@@ -12,6 +12,7 @@ let handle kind c =
     let status = next c in
     let iw = next_z c in let ip = next_z c in let ic = next_z c in let ipers = next_z c in
     let full = next_bool c in
+    let tight = next_bool c in
     let faults = next_int c in
     let faults_new = next_int c in
     let nth = next_int c in
@@ -23,7 +24,7 @@ let handle kind c =
         | "ext" -> changer SameFile
         | _ -> failwith ("thread kind " ^ k)) specs in
     let nsteps = next_int c in
-    let st = ref (init_of iw ip ic ipers full, threads) in
+    let st = ref (init_of iw ip ic ipers full tight, threads) in
     let spawned = Array.make nth false in
     let init_total = Z.add ipers (w_extra iw) in
     let begun = ref init_total in
@@ -67,6 +68,19 @@ let handle kind c =
          diff "model-threads-not-done" ~model:"some thread not Done" ~impl:"all calls returned");
  if faults_new > 0 then prop "entered-through-closed-mapping" (Printf.sprintf "%d accesses by a call that entered its reader/flush section AFTER the mapping was closed (scenario %s)" faults_new scen);
     if faults > 0 then prop "use-after-unmap" (Printf.sprintf "%d accesses through a closed mapping (scenario %s)" faults scen)
+  | "multi" ->
+    (* oracle-only scenario outside the single-counter model *)
+    let status = next c in
+    let nc = next_int c in
+    (match status with
+     | "hang" -> prop "hang" "multi: a call did not return within the step budget (first open of a full file with several pending counters)"
+     | "panic" -> prop "panic" "multi: a call panicked"
+     | _ ->
+       for i = 0 to nc - 1 do
+         let want = next_z c in let got = next_z c in let extra = next_z c in
+         if got <> want || extra <> Z0 then
+           prop "quiescent" (Printf.sprintf "multi: counter m%d: increments=%s persisted=%s pending=%s" i (tok_of_z want) (tok_of_z got) (tok_of_z extra))
+       done)
   | k -> diff "unknown-case-kind" ~model:k ~impl:"-"
 
 let () = run_file Sys.argv.(1) handle
